@@ -32,7 +32,7 @@ NA = {
  "C14": "values come from rucrf L-BFGS training (f64 loops to convergence); no bounded encoding of a trained model is within reach",
  "C15": "needs a trained model and decoding of an image that embeds a 65536-entry table; not constructible/decodable inside the solver",
  "C16": "relates two text emissions of a trained model through f64 scaling and from_readers text parsing; out of reach (see C14, C07)",
- "C17": "FeatureRewriterBuilder::new compiles a regex::Regex; regex construction is not executable under CBMC and cannot be stubbed",
+ "C17": "attempted in this round (kani/c17_attempt.rs.txt): with regex::Regex replaced by a hand-written matcher behind a cargo feature (the repository's own rewriter tests pass with it) add_rule/rewrite compile under Kani, but the trie is a Vec<Node{Vec<Action>}> whose Action enum carries String and HashSet<String>: once the actions have been pushed (realloc/memcpy) CBMC no longer sees the enum discriminants as constants, so every pattern test in rewrite() also explores the HashSet arm (hashbrown probing over unconstrained memory, never finishes unwinding); even one concrete rule with a symbolic 2-feature input gave no verdict in 600 s, 2-3 symbolic rules none in 1200-1800 s. The hook commit was dropped again. The defect named in the property statement (rules '*,x' 'a,y' '*,y' rewrite (a,y) with the third rule) was confirmed natively in a scratch checkout, as was a 7-line repair (share only the most recently added edge; suite green) - neither is committed because no check of this family decides C17.",
  "C18": "FeatureExtractor::new parses templates with three Regexes (as C17) and the second half concerns ids produced by CRF training (C14)",
  "C19": "BufReader/BufWriter + core::fmt code whose loop counts grow with input; below one record is decidable (parse_csv probe), and the second half concerns a CLI's stdout",
  "C20": "regex-driven line parsing with f64 parse (as C17/C19)",
